@@ -71,9 +71,23 @@ func (lex *Lexer) addFreeFloatingToken(t *token.Token, id token.ID, ps, pe int) 
 	t.FreeFloating = append(t.FreeFloating, skippedTkn)
 }
 
+// isEscaped reports whether the byte at p, one of those that can end a text chunk, is escaped: a backslash escapes the
+// byte after it, so the byte behind a run of backslashes is escaped iff the run is odd (`\\\$a` is an escaped backslash
+// followed by an escaped dollar). The runs that are counted never overlap, so the cost stays linear.
+func (lex *Lexer) isEscaped(p int) bool {
+	if p >= len(lex.data) || (lex.data[p] != '$' && lex.data[p] != '{' && lex.data[p] != '"' && lex.data[p] != '`') {
+		return false
+	}
+	n := 0
+	for i := p - 1; i >= 0 && lex.data[i] == '\\'; i-- {
+		n++
+	}
+	return n%2 == 1
+}
+
 func (lex *Lexer) isNotStringVar() bool {
 	p := lex.p
-	if lex.data[p-1] == '\\' && lex.data[p-2] != '\\' {
+	if lex.isEscaped(p) {
 		return true
 	}
 
@@ -94,7 +108,7 @@ func (lex *Lexer) isNotStringVar() bool {
 
 func (lex *Lexer) isNotStringEnd(s byte) bool {
 	p := lex.p
-	if lex.data[p-1] == '\\' && lex.data[p-2] != '\\' {
+	if lex.isEscaped(p) {
 		return true
 	}
 
